@@ -1,15 +1,41 @@
 (* C11 - Lazy streams are coherent: length, iteration, indexing, slicing, reversal agree.
    Only statements here; every proof is `exact <lemma>` into Seq/Streams_*_proofs.v.
-   `yields step s l` = iterating a clone of s produces exactly l and then reports exhaustion
-   (Seq/StreamsSpec.v); theorems quantify over every state, hence over every position reached
-   by dropping a prefix. *)
-From Coq Require Import ZArith List Bool.
+
+   `yields step s l`   iterating a clone of state s produces exactly l, then reports exhaustion
+   `reaches step s t`  t is s after some number of next() calls (`s drop k` for some k)
+   (Seq/StreamsSpec.v).  Theorems quantified over every state (or every reachable state) cover
+   every position reached by dropping a prefix.  `*_count` is the mathematical number of
+   remaining elements; `*_len` is the transcription of the type's Stream::len (Ok None =
+   "infinite", Panic = usize overflow in a debug build). *)
+From Coq Require Import ZArith List Bool Sorting.Sorted.
 From NV Require Import Common.Outcome Common.MachineInt Seq.Index Seq.IndexSpec Seq.Index_proofs
-  Seq.Streams Seq.StreamsSpec Seq.Streams_proofs.
+  Seq.Streams Seq.StreamsSpec Seq.Streams_proofs Seq.Streams_counter_proofs Seq.Streams_comb_proofs
+  Seq.Streams_obs_proofs Seq.Streams_adapt_proofs.
 Import ListNotations.
 Open Scope Z_scope.
 
-(* ---- Range: any start/end/step in Z, any step sign ---- *)
+(* ================================================================ the counting argument *)
+(* one-step lemmas + an invariant give: count = number of elements iteration yields, at every
+   reachable state, with the count itself as the termination measure *)
+Theorem C11_len_counts_iteration_generic : forall (St E : Type) (step : St -> option E * St)
+    (Inv : St -> Prop) (cnt : St -> Z),
+  (forall s, Inv s -> Inv (snd (step s))) ->
+  (forall s, Inv s -> fst (step s) = None -> cnt s = 0) ->
+  (forall s e, Inv s -> fst (step s) = Some e -> cnt s = 1 + cnt (snd (step s))) ->
+  (forall s, Inv s -> 0 <= cnt s) ->
+  forall s t, Inv s -> reaches step s t ->
+  exists l, yields step t l /\ Z.of_nat (length l) = cnt t.
+Proof. exact @count_is_length_reached. Qed.
+Print Assumptions C11_len_counts_iteration_generic.
+
+(* `s drop k` lists list(s) without its first k elements *)
+Theorem C11_drop_lists_suffix : forall (St E : Type) (step : St -> option E * St) (s : St) (l : list E),
+  (forall t, fst (step t) = None -> fst (step (snd (step t))) = None) ->
+  yields step s l -> forall k, yields step (drop_prefix step k s) (skipn k l).
+Proof. exact @yields_drop. Qed.
+Print Assumptions C11_drop_lists_suffix.
+
+(* ================================================================ Range: start/end/step in Z *)
 Theorem C11_range_len_step : forall r x, range_finite r -> fst (range_step r) = Some x ->
   range_count r = 1 + range_count (snd (range_step r)).
 Proof. exact range_count_some. Qed.
@@ -46,7 +72,7 @@ Theorem C11_range_enumerates_exactly : forall l a b c, c <> 0 ->
 Proof. exact range_elements. Qed.
 Print Assumptions C11_range_enumerates_exactly.
 
-(* ---- stream(seq) ---- *)
+(* ================================================================ stream(seq) *)
 Theorem C11_wvec_len_counts_iteration : forall (A : Type) (w : @wvec A) l,
   yields wvec_step w l -> wvec_len w = Some (Z.of_nat (length l)).
 Proof. exact @wvec_len_counts_iteration. Qed.
@@ -57,21 +83,204 @@ Theorem C11_wvec_lists_the_sequence : forall (A : Type) (xs : list A),
 Proof. exact @wvec_lists_the_sequence. Qed.
 Print Assumptions C11_wvec_lists_the_sequence.
 
-(* ---- infinite streams ---- *)
+(* ================================================================ Subsequences: binary counter *)
+Theorem C11_subseq_len_step : forall s e, fst (sub_step s) = Some e ->
+  sub_count s = 1 + sub_count (snd (sub_step s)).
+Proof. exact sub_count_some. Qed.
+Print Assumptions C11_subseq_len_step.
+
+Theorem C11_subseq_len_exhausted : forall s, fst (sub_step s) = None -> sub_count s = 0.
+Proof. exact sub_count_none. Qed.
+Print Assumptions C11_subseq_len_exhausted.
+
+(* known finding len-usize-overflow: stated for fewer than 64 flags, refuted with 64 *)
+Theorem C11_subseq_len_counts_iteration : forall s l,
+  (forall v, s = Some v -> (length v < 64)%nat) ->
+  yields sub_step s l -> sub_len s = Ok (Some (Z.of_nat (length l))).
+Proof. exact sub_len_counts_iteration. Qed.
+Print Assumptions C11_subseq_len_counts_iteration.
+
+Theorem C11_subseq_len_overflow_refuted :
+  exists v, sub_inc (repeat false 64) = Some v /\ sub_count (Some v) = 2 ^ 64 - 1 /\ sub_len (Some v) = Panic.
+Proof. exact sub_len_overflow_refuted. Qed.
+Print Assumptions C11_subseq_len_overflow_refuted.
+
+(* all 2^n masks, each once, in binary counting order *)
+Theorem C11_subseq_enumerates_exactly : forall n l,
+  yields sub_step (sub_init n) l -> enumerates (is_mask n) (map bits l).
+Proof. exact sub_enumerates. Qed.
+Print Assumptions C11_subseq_enumerates_exactly.
+
+(* ================================================================ CartesianPower: mixed radix *)
+Theorem C11_cart_len_step : forall m s e, cart_inv m s -> fst (cart_step m s) = Some e ->
+  cart_count m s = 1 + cart_count m (snd (cart_step m s)).
+Proof. exact cart_count_some. Qed.
+Print Assumptions C11_cart_len_step.
+
+Theorem C11_cart_len_exhausted : forall m s, cart_inv m s -> fst (cart_step m s) = None ->
+  cart_count m s = 0.
+Proof. exact cart_count_none. Qed.
+Print Assumptions C11_cart_len_exhausted.
+
+Theorem C11_cart_len_counts_iteration : forall m s l, cart_inv m s ->
+  (forall v, s = Some v -> Z.of_nat m ^ Z.of_nat (length v) < 2 ^ 64) ->
+  yields (cart_step m) s l -> cart_len m s = Ok (Some (Z.of_nat (length l))).
+Proof. exact cart_len_counts_iteration. Qed.
+Print Assumptions C11_cart_len_counts_iteration.
+
+Theorem C11_cart_len_overflow_refuted :
+  cart_inv 2 (cart_init 2 64) /\ cart_count 2 (cart_init 2 64) = 2 ^ 64 /\ cart_len 2 (cart_init 2 64) = Panic.
+Proof. exact cart_len_overflow_refuted. Qed.
+Print Assumptions C11_cart_len_overflow_refuted.
+
+(* all m^k index tuples, each once, in lexicographic order (also for m = 0 and for k = 0) *)
+Theorem C11_cart_enumerates_exactly : forall m k l,
+  yields (cart_step m) (cart_init m k) l -> enumerates (is_tuple m k) l.
+Proof. exact cart_enumerates. Qed.
+Print Assumptions C11_cart_enumerates_exactly.
+
+(* the element for an index vector below the base length is built without the slice-index
+   panic of self.0[*i] (index vectors of every stream above are below the base length) *)
+Theorem C11_pick_never_panics : forall (A : Type) (d : A) (base : list A) v,
+  Forall (fun i => (i < length base)%nat) v -> pick base v = Ok (map (fun i => nth i base d) v).
+Proof. exact @pick_ok. Qed.
+Print Assumptions C11_pick_never_panics.
+
+(* ================================================================ Permutations, at most 6 things *)
+(* terminates; enumerates exactly the permutations in lexicographic index order; and at every
+   reachable state len (the factorial-number-system formula) = number of elements still to come *)
+Theorem C11_perm_bounded : forall n, (n <= 6)%nat ->
+  exists l, yields perm_step (perm_init n) l /\ enumerates (is_perm n) l /\
+    forall t, reaches perm_step (perm_init n) t ->
+      exists l', yields perm_step t l' /\ perm_len t = Ok (Some (Z.of_nat (length l'))).
+Proof. exact perm_bounded. Qed.
+Print Assumptions C11_perm_bounded.
+
+Theorem C11_perm_len_step_bounded : forall n t e, (n <= 6)%nat ->
+  reaches perm_step (perm_init n) t -> fst (perm_step t) = Some e ->
+  exists k, perm_len (snd (perm_step t)) = Ok (Some k) /\ perm_len t = Ok (Some (1 + k)).
+Proof. exact perm_len_step_bounded. Qed.
+Print Assumptions C11_perm_len_step_bounded.
+
+(* ================================================================ Combinations, at most 6 things *)
+(* no len override: len is the default (count by iterating a clone) *)
+Theorem C11_comb_bounded : forall n k, (n <= 6)%nat -> (k <= n + 1)%nat ->
+  exists l, yields (comb_step n) (comb_init k) l /\ enumerates (is_comb n k) l /\
+    forall t, reaches (comb_step n) (comb_init k) t ->
+      exists l', yields (comb_step n) t l' /\
+        forall fuel, (length l' < fuel)%nat ->
+          default_len (comb_step n) fuel t = Ok (Some (Z.of_nat (length l'))).
+Proof. exact comb_bounded. Qed.
+Print Assumptions C11_comb_bounded.
+
+(* ================================================================ default len, lazy adaptors *)
+Theorem C11_default_len_counts_iteration : forall (St E : Type) (step : St -> option E * St) s l fuel,
+  yields step s l -> (length l < fuel)%nat ->
+  default_len step fuel s = Ok (Some (Z.of_nat (length l))).
+Proof. exact @default_len_counts_iteration. Qed.
+Print Assumptions C11_default_len_counts_iteration.
+
+Theorem C11_lazy_map_lists_map : forall (St E F : Type) (step : St -> option E * St) (f : E -> F) s l,
+  yields step s l -> yields (map_step step f) (AOk s) (map f l).
+Proof. exact @map_yields. Qed.
+Print Assumptions C11_lazy_map_lists_map.
+
+Theorem C11_lazy_filter_lists_filter : forall (St E : Type) (step : St -> option E * St) (p : E -> bool) n s l,
+  length l = n -> yields step s l -> forall fuel, (length l < fuel)%nat ->
+  filter_unfold step p fuel (AOk s) = Ok (filter p l).
+Proof. exact @filter_lists. Qed.
+Print Assumptions C11_lazy_filter_lists_filter.
+
+Theorem C11_lazy_zip_lists_zip : forall (St E : Type) (step : St -> option E * St) s1 l1,
+  yields step s1 l1 -> forall s2 l2, yields step s2 l2 ->
+  yields (zip_step step) (AOk [s1; s2]) (map (fun xy => [fst xy; snd xy]) (combine l1 l2)).
+Proof. exact @zip2_yields. Qed.
+Print Assumptions C11_lazy_zip_lists_zip.
+
+(* ================================================================ observers = list functions *)
+(* for any stream whose len is right (the theorems above), with enough fuel to force it:
+   len, truthiness, s[i], s[a:b], reverse, last, in, unpacking are the functions of list(s) *)
+Theorem C11_observers_as_list : forall (St E : Type) (step : St -> option E * St)
+    (len : St -> outcome (option Z)) (eqb : E -> E -> bool) (fuel : nat) (s : St) (l : list E),
+  yields step s l -> len s = Ok (Some (Z.of_nat (length l))) -> (length l <= fuel)%nat -> fits l ->
+  obs_len len s = Ok (Some (Z.of_nat (length l))) /\
+  obs_truthy len s = Ok (match l with [] => false | _ => true end) /\
+  (forall i, obs_index step fuel s i = index_list l i) /\
+  (forall lo hi, all_i64 lo -> all_i64 hi ->
+     omap sliced_elems (obs_slice step fuel s (obound lo) (obound hi)) = Ok (py_slice l lo hi)) /\
+  obs_reverse step fuel s = Ok (rev l) /\
+  obs_last step fuel s = opt_out (py_index l (-1)) /\
+  (forall x, obs_in step eqb fuel x s = Ok (existsb (eqb x) l)) /\
+  (forall k, obs_unpack step len fuel k s = if (length l =? k)%nat then Ok l else Err EValue).
+Proof. exact @observers_as_list. Qed.
+Print Assumptions C11_observers_as_list.
+
+(* a consumer iterating through a handle to a cell that a variable also owns (strong count
+   >= 2) leaves the variable's stream state unchanged, and sees what a clone yields *)
+Theorem C11_observation_does_not_advance : forall (St E : Type) (step : St -> option E * St)
+    k (h : @heap St) a s cnt es h' a',
+  nth_error h a = Some (s, cnt) -> (2 <= cnt)%nat -> handle_run step k h a = Some (es, h', a') ->
+  (exists c, nth_error h' a = Some (s, c) /\ (1 <= c)%nat) /\
+  (forall b, b <> a -> (b < length h)%nat -> nth_error h' b = nth_error h b) /\
+  es = nexts step k s.
+Proof. exact @observation_does_not_advance. Qed.
+Print Assumptions C11_observation_does_not_advance.
+
+(* ================================================================ endless streams *)
 Theorem C11_iota_prefix : forall a n,
   unfold range_step n (iota a) = map (fun k => a + Z.of_nat k) (seq 0 n) /\ range_len (iota a) = None.
 Proof. intros; split; [apply iota_prefix | apply iota_len]. Qed.
 Print Assumptions C11_iota_prefix.
 
-(* non-vacuity *)
+Theorem C11_repeat_prefix : forall (A : Type) (x : A) n, unfold repeat_step n x = repeat x n.
+Proof. exact @repeat_prefix. Qed.
+Print Assumptions C11_repeat_prefix.
+
+Theorem C11_cycle_prefix : forall (A : Type) (d : A) n xs pos, (pos < length xs)%nat ->
+  unfold cycle_step n (xs, pos) = map (fun k => nth ((pos + k) mod length xs) xs d) (seq 0 n).
+Proof. exact @cycle_prefix. Qed.
+Print Assumptions C11_cycle_prefix.
+
+(* the index override: element (pos + i) mod len for every machine-word index; never a panic *)
+Theorem C11_cycle_index_every_word : forall (A : Type) (d : A) xs pos (i : Z), (pos < length xs)%nat ->
+  cycle_index (xs, pos) i = Ok (nth (Z.to_nat ((Z.of_nat pos + i) mod Z.of_nat (length xs))) xs d).
+Proof. exact @cycle_index_spec. Qed.
+Print Assumptions C11_cycle_index_every_word.
+
+Theorem C11_cycle_index_agrees_with_iteration : forall (A : Type) (d : A) xs pos (k : nat), (pos < length xs)%nat ->
+  cycle_index (xs, pos) (Z.of_nat k) = Ok (nth k (unfold cycle_step (S k) (xs, pos)) d).
+Proof. exact @cycle_index_agrees_with_iteration. Qed.
+Print Assumptions C11_cycle_index_agrees_with_iteration.
+
+(* reverse of a cycle: reverse(s)[j] = s[-1-j] for every machine-word j *)
+Theorem C11_cycle_reversed : forall (A : Type) (d : A) (xs : list A) pos (j : Z), (pos < length xs)%nat ->
+  cycle_index (cycle_reversed (xs, pos)) j = cycle_index (xs, pos) (-1 - j).
+Proof. exact @cycle_reversed_spec. Qed.
+Print Assumptions C11_cycle_reversed.
+
+Theorem C11_iterate_prefix : forall (A : Type) (f : A -> A) n x,
+  unfold (iterate_step f) n x = map (fun k => Nat.iter k f x) (seq 0 n).
+Proof. exact @iterate_prefix. Qed.
+Print Assumptions C11_iterate_prefix.
+
+(* non-vacuity: the hypotheses are met by ordinary streams and the functions compute *)
 Example C11_nonvacuous :
   yields range_step (til 10 0 (-3)) [10; 7; 4; 1] /\ range_len (til 10 0 (-3)) = Some 4 /\
   range_finite (til 10 0 (-3)) /\ ~ range_finite (til 1 5 0) /\
-  yields wvec_step (stream_of_list [1; 2; 3]) [1; 2; 3].
+  yields wvec_step (stream_of_list [1; 2; 3]) [1; 2; 3] /\
+  unfold perm_step 10 (perm_init 3) = [[0; 1; 2]; [0; 2; 1]; [1; 0; 2]; [1; 2; 0]; [2; 0; 1]; [2; 1; 0]]%nat /\
+  perm_len (snd (perm_step (perm_init 3))) = Ok (Some 5) /\
+  unfold (comb_step 4) 10 (comb_init 2) = [[0; 1]; [0; 2]; [0; 3]; [1; 2]; [1; 3]; [2; 3]]%nat /\
+  sub_len (snd (sub_step (sub_init 3))) = Ok (Some 7) /\
+  cart_len 3 (snd (cart_step 3 (cart_init 3 2))) = Ok (Some 8) /\ cart_inv 3 (cart_init 3 2) /\
+  unfold (cart_step 0) 5 (cart_init 0 0) = [[]] /\ unfold perm_step 5 (perm_init 0) = [[]] /\
+  handle_run wvec_step 2 [(stream_of_list [7; 8; 9], 2%nat)] 0 =
+    Some ([Some 7; Some 8], [(stream_of_list [7; 8; 9], 1%nat); (([7; 8; 9], 2%nat), 1%nat)], 1%nat).
 Proof.
-  repeat split.
+  repeat split; try (vm_compute; reflexivity).
   - repeat (econstructor; [reflexivity|]). constructor. reflexivity.
   - left. discriminate.
   - intros [H|H]; apply H; reflexivity.
   - repeat (econstructor; [reflexivity|]). constructor. reflexivity.
+  - repeat constructor.
 Qed.
